@@ -543,6 +543,8 @@ SEEDS = [
     'Y = {a} + {b}[-1] * <u>',
     'Y = A[0] + B[-1]\nZ = {g}*Y',
     'Y{[é]} = X',
+    'X{.1}=Y',
+    'Y = A{.1} + B{!r} + C{:>3}',
     'Y = {a[0]} + {b.c}',
     'Y = X[] + Z[ ]',
     '```\nself.Y[t] = = 1\n```',
